@@ -37,6 +37,10 @@ func (y CheckWhen) check(s *Selection, m meta.Meta) (bool, error) {
 	if s == nil {
 		return true, nil
 	}
+	if s.parent != nil && meta.IsLeaf(s.Path.Meta) {
+		// the selection of a leaf itself (Find to a leaf) stands on the node that holds the leaf
+		s = s.parent
+	}
 	// selection of the data node above m: s itself when m is a leaf
 	above := s
 	if !meta.IsLeaf(m) {
